@@ -463,6 +463,10 @@ func New() *` + typ + ` { return &` + typ + `{} }
 // Probe is test-only.
 // @testonly
 func Probe() int { return 0 }
+
+// Dump is test-only too; importers may reach it through a struct of their own that embeds ` + typ + `.
+// @testonly
+func (t *` + typ + `) Dump() {}
 `}}}
 	}
 	// meth restricts ONLY a method: no type or function of the package carries @packageonly
@@ -485,6 +489,16 @@ import (
 	"ex.com/m/meth"
 	"ex.com/m/omega"
 )
+
+type wrapA struct{ alpha.TA }
+
+type wrapO struct{ *omega.TO }
+
+func useWrap(a *wrapA, o wrapO) {
+	a.Dump() // want TONL03
+	o.Dump() // want TONL03
+	a.TA.Dump() // want TONL03
+}
 
 func useMeth(r meth.R) {
 	r.Do() // want PKGO03
